@@ -9,6 +9,11 @@ inductive Sexp where
 
 namespace Sexp
 
+/-- does the atom occur anywhere in the expression (as the head of a list or elsewhere) -/
+partial def hasAtom (a : String) : Sexp → Bool
+  | .atom s => s == a
+  | .list xs => xs.any (hasAtom a)
+
 partial def toStr : Sexp → String
   | atom s => s
   | list xs => "(" ++ " ".intercalate (xs.map toStr) ++ ")"
